@@ -4,7 +4,7 @@ use super::{
     models::{FieldAttributeBuilder, TypeAttributeBuilder},
     TraitHandler,
 };
-use crate::{common::r#type::{dereference, dereference_stars}, panic, supported_traits::Trait};
+use crate::{common::r#type::{dereference_stars, dereference_target}, panic, supported_traits::Trait};
 
 pub(crate) struct DerefEnumHandler;
 
@@ -94,7 +94,7 @@ impl TraitHandler for DerefEnumHandler {
             }
 
             let ty = variants[0].4;
-            let dereference_ty = dereference(ty);
+            let dereference_ty = dereference_target(ty);
 
             target_token_stream.extend(quote!(#dereference_ty));
 
